@@ -215,8 +215,8 @@ def build_harness(profiles):
     return flock_run(os.path.join(WORK, "cargo.lock"), go)
 
 
-AX_RE = re.compile(r"'([^']+)' depends on axioms: \[([^\]]*)\]")
-NOAX_RE = re.compile(r"'([^']+)' does not depend on any axioms")
+AX_RE = re.compile(r"'(\S+)' depends on axioms: \[([^\]]*)\]")
+NOAX_RE = re.compile(r"'(\S+)' does not depend on any axioms")
 
 
 def audit_axioms(prop, theorems):
